@@ -258,7 +258,10 @@ def run(run, tier, loadcfg):
     run.assumptions = ['amplitude abstraction: sample conversions are the identity, EQUILIBRIUM is 0 (C01/C02/C03)', 'ring buffer = delay line of its length (C06)',
                        'floating-point rounding is ignored in the polynomial identities']
     for cfg in ['std-debug', 'nostd']:
-        cx = Ctx(loadcfg(cfg))
+        fx_ = loadcfg(cfg, optional=(cfg == 'nostd'))
+        if fx_ is None:
+            continue
+        cx = Ctx(fx_)
         check_next_squared(run, cx, cfg)
         check_sqrt_placement(run, cx, cfg)
         check_reset_new(run, cx, cfg)
